@@ -95,6 +95,9 @@ func c08Case(c *rep.Ctx, r c08Replay) {
 	}
 	before := fsx.Snapshot(j.Root)
 	state := before.Under("p/q/target").Kinds()
+	if r.Form == "not-there" {
+		state = map[string]byte{}
+	}
 	target := j.Target
 	var restore func()
 	switch r.Form {
@@ -105,6 +108,9 @@ func c08Case(c *rep.Ctx, r c08Replay) {
 		restore = func() { os.Chdir(wd) }
 	case "slash":
 		target = j.Target + "/"
+	case "not-there":
+		// a target directory that does not exist (nor does its parent): everything is missing, and it stays that way
+		target = filepath.Join(j.Target, "no", "such", "dir")
 	case "symlink":
 		link := filepath.Join(j.Root, "link-to-target")
 		os.Symlink(j.Target, link)
@@ -380,7 +386,7 @@ func init() {
 							}
 						}
 						if c.R.States%7 == 0 {
-							for _, form := range []string{"rel", "slash", "dot", "dot-given-last", "given-twice", "symlink"} {
+							for _, form := range []string{"rel", "slash", "dot", "dot-given-last", "given-twice", "symlink", "not-there"} {
 								c08Case(c, c08Replay{Kind: "c08", Depth: d, Names: names, State: st, Strict: true, Form: form, Route: "md"})
 							}
 							// the deprecated aliases take the same options
